@@ -212,7 +212,7 @@ def step_fingerprint(rule, b, line):
     steps = b['steps']
     i = line.get('i')
     st = None
-    if line.get('ev') == 'step' and isinstance(i, int) and i < len(steps):
+    if line.get('ev') not in ('probe', 'final') and isinstance(i, int) and 0 <= i < len(steps):
         st = steps[i]
     else:
         c = line.get('c')
@@ -230,7 +230,7 @@ def step_fingerprint(rule, b, line):
         if k in ('c', 'w', 'conn'):
             v = conn_class(v)
         parts.append('%s=%s' % (k, v if isinstance(v, str) else json.dumps(v, sort_keys=True, separators=(',', ':'))))
-    tag = '' if line.get('ev') == 'step' else '@' + str(line.get('ev'))
+    tag = '@' + str(line.get('ev')) if line.get('ev') in ('probe', 'final') else ''
     return '%s/%s%s' % (rule, ','.join(parts), tag)
 
 
